@@ -95,14 +95,14 @@ def hexsha_of(repo_name, intid):
 class FakeCommit:
     __slots__ = ("intid", "hexsha", "parents", "message", "committed_date", "author", "tree")
 
-    def __init__(self, repo_name, intid, message, files, date_rank=None):
+    def __init__(self, repo_name, intid, message, files, date_offset=None):
         self.intid = intid
         self.hexsha = hexsha_of(repo_name, intid)
         self.parents = []
         self.message = message
-        # default: 10 s steps in id (= topological) order; with an explicit rank: 10-minute steps in rank order,
-        # which lets commit times run against the history (clock skew, rebases) - still far inside the windows
-        self.committed_date = BASE_TIME + (10 * intid if date_rank is None else 600 * date_rank)
+        # default: 10 s steps in id (= topological) order; otherwise an explicit offset in seconds (commit times may
+        # run against the history and spread over days, always inside the 30-day window)
+        self.committed_date = BASE_TIME + (10 * intid if date_offset is None else date_offset)
         self.author = FakeAuthor(_AUTHORS[intid % len(_AUTHORS)])
         self.tree = FakeTree(files)
 
@@ -126,7 +126,7 @@ class FakeRemote:
 
 class FakeRepo:
     """spec = {"name": str,
-               "commits": [[intid, [parent ids], message, [tags], {path: text}(, date rank)], ...]  (any order),
+               "commits": [[intid, [parent ids], message, [tags], {path: text}(, time offset in seconds)], ...]  (any order),
                "branches": [[branch_name, head_intid], ...]}      branch_name e.g. "release/1.0", "master"
     """
 
@@ -227,13 +227,15 @@ def c06_tag(i):
 
 def c06_repo_spec(case, name="comp_1"):
     """case = {"parents": [[...] per commit 1..n], "heads": [[branch, id], ...], "tags": [ids], "match": [ids],
-               "dates": [rank of the commit time per commit] (optional; default: increasing with the id)}"""
+               "dates": [rank of the commit time per commit] (optional; default: increasing with the id),
+               "step": seconds per rank unit (optional, default 600)}"""
     tags, match = set(case["tags"]), set(case["match"])
     dates = case.get("dates")
+    step = case.get("step", 600)
     commits = []
     for i, ps in enumerate(case["parents"], start=1):
         commits.append([i, list(ps), c06_message(i, i in match), [c06_tag(i)] if i in tags else [], {}]
-                       + ([dates[i - 1]] if dates else []))
+                       + ([dates[i - 1] * step] if dates else []))
     return {"name": name, "commits": commits, "branches": [list(b) for b in case["heads"]]}
 
 
@@ -552,6 +554,13 @@ def subsets(items):
 # =====================================================================================
 # 3. C07 reference
 # =====================================================================================
+# optional time levels of C07 scenarios: component commit at level k is committed at k * 2 days, parent commit at
+# level k at k * 2 days + 1.5 days, i.e. half a day before component level k+1 (inside the 1-day component window
+# of a build at level k+1, outside the window of a build at level k+2)
+C07_LEVEL = 2 * 86400
+C07_PARENT_SHIFT = 86400 + 43200
+
+
 def pin_commit(pin):
     """A pin is a component commit id c (its first = smallest build tag) or [c, 1] (its second build tag)."""
     return pin[0] if isinstance(pin, (list, tuple)) else pin
@@ -592,7 +601,8 @@ def c07_comp_spec(comp, name="lib"):
             tg.append(tag_name(2 * i, maj, 0))
             if i in two:
                 tg.append(tag_name(2 * i + 1, maj, 0))
-        commits.append([i, list(ps), c06_message(i, i in match), tg, {}])
+        commits.append([i, list(ps), c06_message(i, i in match), tg, {}]
+                       + ([comp["levels"][i - 1] * C07_LEVEL] if comp.get("levels") else []))
     return {"name": name, "commits": commits, "branches": [list(b) for b in comp["heads"]]}
 
 
@@ -613,7 +623,8 @@ def c07_parent_spec(par, comp, name="app"):
     for i, ps in enumerate(par["parents"], start=1):
         pin = par["pins"][i - 1]
         files = {"DEPENDS": json.dumps({"lib": pin if isinstance(pin, str) else c07_version(comp, pin)})}
-        commits.append([i, list(ps), c06_message(i, i in match), [tag_name(i, 5, 0)] if i in tags else [], files])
+        commits.append([i, list(ps), c06_message(i, i in match), [tag_name(i, 5, 0)] if i in tags else [], files]
+                       + ([par["levels"][i - 1] * C07_LEVEL + C07_PARENT_SHIFT] if par.get("levels") else []))
     return {"name": name, "commits": commits, "branches": [list(b) for b in par["heads"]]}
 
 
